@@ -180,7 +180,7 @@ class Ctx:
         """full .vo build of the given targets (never -vos)"""
         with Lock(os.path.join(COQ, ".lock")):
             self.coq_makefile()
-            rc, out = sh(["make", "-k", "-j%d" % NPROC] + list(targets), cwd=COQ, timeout=timeout)
+            rc, out = sh(["make", "-k", "-j%d" % NPROC, "COQC=timeout 900 coqc"] + list(targets), cwd=COQ, timeout=timeout)
         return rc, out
 
     def coq_closure(self, vfile):
